@@ -322,7 +322,7 @@ pub fn defs() -> Vec<CheckDef> {
         CheckDef {
             id: "C02",
             level: "exploration",
-            runs_quick: 160_000,
+            runs_quick: 600_000,
             runs_thorough: 6_000_000,
             block: 256,
             gen: gen_c02,
@@ -335,7 +335,7 @@ pub fn defs() -> Vec<CheckDef> {
         CheckDef {
             id: "C09",
             level: "fault_enumeration",
-            runs_quick: 120_000,
+            runs_quick: 800_000,
             runs_thorough: 4_000_000,
             block: 256,
             gen: gen_c09,
@@ -348,7 +348,7 @@ pub fn defs() -> Vec<CheckDef> {
         CheckDef {
             id: "C10",
             level: "exploration",
-            runs_quick: 120_000,
+            runs_quick: 800_000,
             runs_thorough: 4_000_000,
             block: 256,
             gen: gen_c10,
@@ -361,7 +361,7 @@ pub fn defs() -> Vec<CheckDef> {
         CheckDef {
             id: "C11",
             level: "exploration",
-            runs_quick: 60_000,
+            runs_quick: 300_000,
             runs_thorough: 2_000_000,
             block: 128,
             gen: gen_c11,
@@ -374,7 +374,7 @@ pub fn defs() -> Vec<CheckDef> {
         CheckDef {
             id: "C12",
             level: "exploration",
-            runs_quick: 120_000,
+            runs_quick: 600_000,
             runs_thorough: 4_000_000,
             block: 256,
             gen: gen_c12,
